@@ -900,18 +900,13 @@ impl DhtCoreEngine {
             "Selected storage targets"
         );
 
-        // Store locally if we're one of the selected nodes or if no nodes are available (test/single-node mode)
-        if selected_nodes.contains(&self.node_id) || selected_nodes.is_empty() {
+        // This engine never forwards the value anywhere: callers (the local PUT path and the
+        // remote PUT handler) rely on the value being kept here. The routing table never
+        // contains the local node, so requiring it among `selected_nodes` meant that a node
+        // knowing at least one peer acknowledged every store and kept nothing.
+        {
             let mut store = self.data_store.write().await;
-            // Avoid unnecessary clone of value: key is cloned for ownership, value is consumed by this branch
             store.put(key.clone(), value);
-            // Return early since we've consumed value
-            return Ok(StoreReceipt {
-                key: key.clone(),
-                stored_at: selected_nodes,
-                timestamp: SystemTime::now(),
-                success: true,
-            });
         }
 
         Ok(StoreReceipt {
